@@ -233,28 +233,11 @@ func runC08(c *Ctx, r *Report) {
 			fl, base, ok := fieldLoad(key)
 			return ok && fl == msgIDF && sameParam(base, mParam)
 		}
-		for _, f := range append([]*ssa.Function{sendRPC}, AnonFuncsDeep(sendRPC)...) {
-			for _, ci := range staticCallsTo(f, getMsg) {
-				found = true
-				okPoll = isOwnID(ci.Common().Args[1])
-			}
-			// the poll in a helper of this package that sendRPC calls or starts: its key is the helper's parameter,
-			// bound to m.MessageID at the call site
-			for _, ci := range callInstrs(f) {
-				h := ci.Common().StaticCallee()
-				if h == nil || h == getMsg || h.Pkg != sendRPC.Pkg || len(h.Blocks) == 0 {
-					continue
-				}
-				for _, in := range staticCallsTo(h, getMsg) {
-					found = true
-					okPoll = false
-					for pi, p := range h.Params {
-						if sameParam(in.Common().Args[1], p) && pi < len(ci.Common().Args) && isOwnID(ci.Common().Args[pi]) {
-							okPoll = true
-						}
-					}
-				}
-			}
+		// the poll may sit in sendRPC, in its goroutine closure, or in helpers of the package that it calls or starts:
+		// the key is followed back through parameters and captured variables to what it is bound to in sendRPC
+		for _, bc := range callsThroughHelpers(sendRPC, getMsg, 3) {
+			found = true
+			okPoll = isOwnID(bc.Resolve(bc.Call.Common().Args[1]))
 		}
 		r.Check(okSer && found && okPoll, "C08/own-id", "sendRPC polls its own id", c.Pos(sendRPC.Pos()), "serialises m and polls getMessage(m.MessageID)",
 			"sendRPC does not poll the store for the id of the message it serialised and wrote: a call can return the reply to another request")
@@ -307,8 +290,12 @@ func runC08(c *Ctx, r *Report) {
 		getID := c.LookupFunc("driver/netconf", "", "getID")
 		okKey, okBuf := false, false
 		var storeCall *ssa.Call
-		for _, ci := range staticCallsTo(read, storeMsg) {
-			storeCall = ci.(*ssa.Call)
+		for _, bc := range callsThroughHelpers(read, storeMsg, 2) {
+			sc, isCall := bc.Call.(*ssa.Call)
+			if !isCall {
+				continue
+			}
+			storeCall = sc
 			key, buf := storeCall.Call.Args[1], storeCall.Call.Args[2]
 			// key: (phi of) call getID(FindSubmatch(pattern, X)) with X == buf
 			var idCall *ssa.Call
@@ -332,7 +319,9 @@ func runC08(c *Ctx, r *Report) {
 					}
 				}
 			}
-			// buf is the accumulated buffer: a value that reaches the loop phi (append(b, rb...))
+			// buf is the accumulated buffer: a value that reaches the loop phi (append(b, rb...)); when the filing was
+			// moved into a helper, the helper's parameter is followed back to the reader's own buffer
+			buf = bc.Resolve(buf)
 			if call, ok := buf.(*ssa.Call); ok {
 				if b, ok := call.Call.Value.(*ssa.Builtin); ok && b.Name() == "append" {
 					okBuf = true
